@@ -611,12 +611,22 @@ macro_rules! poly_family {
             $o.emit(json!({"k": "poly", "op": "mat_mul", "f": $fm, "ty": stringify!($M2), "sp": "mul_mat2", "a": wm(&m2a, 2), "b": wm(&m2b, 2), "got": wm(&a.mul_mat2(&b).to_cols_array(), 2)}));
             $o.emit(json!({"k": "poly", "op": "mul_vec", "f": $fm, "ty": stringify!($M2), "m": wm(&m2a, 2), "v": wv(&a2), "got": wv(&(a * $V2::from_slice(&a2)).to_array())}));
             $o.emit(json!({"k": "poly", "op": "det", "f": $fm, "ty": stringify!($M2), "m": wm(&m2a, 2), "got": w(a.determinant())}));
+            if a.determinant() != 0.0 && a.inverse().is_finite() { $o.emit(json!({"k": "poly", "op": "inverse", "f": $fm, "ty": stringify!($M2), "m": wm(&m2a, 2), "got": wm(&a.inverse().to_cols_array(), 2)})); }
         }
         {
             let (a, b) = ($M3::from_cols_slice(&m3a), $M3::from_cols_slice(&m3b));
             $o.emit(json!({"k": "poly", "op": "mat_mul", "f": $fm, "ty": stringify!($M3), "a": wm(&m3a, 3), "b": wm(&m3b, 3), "got": wm(&(a * b).to_cols_array(), 3)}));
             $o.emit(json!({"k": "poly", "op": "mul_vec", "f": $fm, "ty": stringify!($M3), "m": wm(&m3a, 3), "v": wv(&a3), "got": wv(&(a * $V3::from_slice(&a3)).to_array())}));
             $o.emit(json!({"k": "poly", "op": "det", "f": $fm, "ty": stringify!($M3), "m": wm(&m3a, 3), "got": w(a.determinant())}));
+            if a.determinant() != 0.0 && a.inverse().is_finite() { $o.emit(json!({"k": "poly", "op": "inverse", "f": $fm, "ty": stringify!($M3), "m": wm(&m3a, 3), "got": wm(&a.inverse().to_cols_array(), 3)})); }
+            // a nearly singular matrix: the third column is almost a combination of the first two
+            {
+                let eps3: $S = [1e-2, 1e-3, 1e-4][$r.below(3) as usize];
+                let ns: Vec<$S> = vec![m3a[0], m3a[1], m3a[2], m3a[3], m3a[4], m3a[5],
+                    m3a[0] * 0.5 + m3a[3] * 2.0 + m3a[6] * eps3, m3a[1] * 0.5 + m3a[4] * 2.0 + m3a[7] * eps3, m3a[2] * 0.5 + m3a[5] * 2.0 + m3a[8] * eps3];
+                let mn = $M3::from_cols_slice(&ns);
+                if mn.determinant() != 0.0 && mn.inverse().is_finite() { $o.emit(json!({"k": "poly", "op": "inverse", "f": $fm, "ty": stringify!($M3), "sp": "nearly singular", "m": wm(&ns, 3), "got": wm(&mn.inverse().to_cols_array(), 3)})); }
+            }
             // 2D homogeneous transforms: linear 2x2 block, translation = third column
             let lin: Vec<$S> = vec![m3a[0], m3a[1], m3a[3], m3a[4]];
             let aff = $M3::from_cols_slice(&[m3a[0], m3a[1], 0.0, m3a[3], m3a[4], 0.0, m3a[6], m3a[7], 1.0]);
@@ -632,6 +642,7 @@ macro_rules! poly_family {
                 $o.emit(json!({"k": "poly", "op": "mul_vec", "f": $fm, "ty": stringify!($M3x), "sp": "Vec3A", "m": wm(&m3a, 3), "v": wv(&a3), "got": wv(&(a * $V3x::from_slice(&a3)).to_array())}));
                 $o.emit(json!({"k": "poly", "op": "mul_vec", "f": $fm, "ty": stringify!($M3x), "sp": "Vec3", "m": wm(&m3a, 3), "v": wv(&a3), "got": wv(&(a * $V3::from_slice(&a3)).to_array())}));
                 $o.emit(json!({"k": "poly", "op": "det", "f": $fm, "ty": stringify!($M3x), "m": wm(&m3a, 3), "got": w(a.determinant())}));
+                if a.determinant() != 0.0 && a.inverse().is_finite() { $o.emit(json!({"k": "poly", "op": "inverse", "f": $fm, "ty": stringify!($M3x), "m": wm(&m3a, 3), "got": wm(&a.inverse().to_cols_array(), 3)})); }
             }
         )*
         {
@@ -639,6 +650,7 @@ macro_rules! poly_family {
             $o.emit(json!({"k": "poly", "op": "mat_mul", "f": $fm, "ty": stringify!($M4), "a": wm(&m4a, 4), "b": wm(&m4b, 4), "got": wm(&(a * b).to_cols_array(), 4)}));
             $o.emit(json!({"k": "poly", "op": "mul_vec", "f": $fm, "ty": stringify!($M4), "m": wm(&m4a, 4), "v": wv(&a4), "got": wv(&(a * $V4::from_slice(&a4)).to_array())}));
             $o.emit(json!({"k": "poly", "op": "det", "f": $fm, "ty": stringify!($M4), "m": wm(&m4a, 4), "got": w(a.determinant())}));
+            if a.determinant() != 0.0 && a.inverse().is_finite() { $o.emit(json!({"k": "poly", "op": "inverse", "f": $fm, "ty": stringify!($M4), "m": wm(&m4a, 4), "got": wm(&a.inverse().to_cols_array(), 4)})); }
             // affine 4x4: last row (0, 0, 0, 1)
             let mut af = m4a.clone();
             af[3] = 0.0; af[7] = 0.0; af[11] = 0.0; af[15] = 1.0;
